@@ -277,6 +277,29 @@ example : KeyDetermines dialectKey kernelExpr := by
   unfold kernelExpr
   by_cases ha : a.1 = dFLEX <;> by_cases hb : b.1 = dFLEX <;> simp [ha, hb] at h ⊢
 
+/-! ### process-level state that no run changes (class-level option defaults) -/
+
+/-- **Frame rule.**  A piece of process-level state that every run leaves as it found it is
+invisible: after any history the run sees the initial state, so its result is the fresh one. -/
+theorem preserved_state_invisible {σ ι ο : Type} (step : σ → ι → ο × σ)
+    (hp : ∀ s i, (step s i).2 = s) (s0 : σ) (past : List ι) (i : ι) :
+    (step (stateAfter step s0 past) i).1 = (step s0 i).1 := by
+  have : stateAfter step s0 past = s0 := by
+    induction past with
+    | nil => rfl
+    | cons j rest ih => simp [stateAfter, hp, ih]
+  rw [this]
+
+/-- the option defaults are such a state in the current code (`.copy()` before `.update()`) -/
+theorem option_defaults_invisible (d0 : Opts) (past : List Opts) (cmd : Opts) :
+    (parseCopy (stateAfter parseCopy d0 past) cmd).1 = (parseCopy d0 cmd).1 :=
+  preserved_state_invisible parseCopy (fun _ _ => rfl) d0 past cmd
+
+/-- merging in place is not: a run WITHOUT `--event_limit` after one with `count = 3` is limited to 3 -/
+theorem option_defaults_in_place_leak :
+    optGet "count" (parseInPlace (stateAfter parseInPlace [("count", 1000)] [[("count", 3)]]) []).1 ≠
+      optGet "count" (parseInPlace [("count", 1000)] []).1 := by decide
+
 /-! ### non-vacuity: a run with a job lookup, a hash grouping, two barriers and `-I` -/
 
 def demoRun : Run Nat :=
